@@ -157,7 +157,14 @@ def random_netlist(rng, lib, libname, n_inst=6, with_buses=True, with_assigns=Tr
                 pins[p] = None            # unconnected
             else:
                 pins[p] = rng.choice(sources)
+        # a multi-output cell may leave some (not all) of its outputs open, the first one included
+        open_outs = set()
+        if len(outs) >= 2 and rng.random() < 0.4:
+            open_outs = set(rng.sample(outs, rng.randrange(1, len(outs))))
         for o in outs:
+            if o in open_outs:
+                pins[o] = None
+                continue
             w = new_wire()
             pins[o] = w
             sources.append(w)
@@ -171,8 +178,15 @@ def random_netlist(rng, lib, libname, n_inst=6, with_buses=True, with_assigns=Tr
             rg = (w - 1, 0) if rng.random() < 0.5 else (0, w - 1)
             p = (f'y{k}', 'output', rg)
             N.ports.append(p)
-            for b in N.port_bits(p):
-                src = rng.choice(sources + (["1'b1", "1'b0"] if with_consts else []))
+            bits = N.port_bits(p)
+            srcs = [rng.choice(sources + (["1'b1", "1'b0"] if with_consts else [])) for _ in bits]
+            in_buses = [q for q in N.ports if q[1] == 'input' and q[2] is not None and len(N.port_bits(q)) <= len(bits)]
+            if in_buses and rng.random() < 0.4:
+                # a whole input bus feeds a run of the output bus (so that the renderer can name it bare inside a concatenation)
+                qb = N.port_bits(rng.choice(in_buses))
+                at = rng.randrange(0, len(bits) - len(qb) + 1)
+                srcs[at:at + len(qb)] = qb
+            for b, src in zip(bits, srcs):
                 N.assigns.append((b, src))
         else:
             p = (f'out{k}', 'output', None)
@@ -244,13 +258,49 @@ def render_verilog(N, rng, positional_prob=0.2):
         body.append(f'{ct} {iname(inst)} ({", ".join(conn)});{cmt()}')
     # assigns: sometimes merged into a concatenation
     asg = list(N.assigns)
+    # all bits of an output bus in one statement: the bus named bare on the left (alone or inside a concatenation), whole buses named
+    # bare on the right wherever a run of sources is exactly one bus in declared order
+    buses = {q[0]: N.port_bits(q) for q in N.ports if q[2] is not None}
+
+    def rhs(srcs):
+        out, k = [], 0
+        while k < len(srcs):
+            hit = next((nm for nm, bb in buses.items() if srcs[k:k + len(bb)] == bb), None)
+            if hit is not None and rng.random() < 0.7:
+                out.append(vname(hit))
+                k += len(buses[hit])
+            else:
+                out.append(vs(srcs[k]))
+                k += 1
+        return out
+    for q in N.ports:
+        if q[1] != 'output' or q[2] is None or rng.random() < 0.4:
+            continue
+        bits = N.port_bits(q)
+        mine = [(t, s_) for t, s_ in asg if t in bits]
+        if [t for t, _ in mine] != bits:
+            continue
+        asg = [(t, s_) for t, s_ in asg if t not in bits]
+        srcs = [s_ for _, s_ in mine]
+        lhs = vname(q[0])
+        scal = [(t, s_) for t, s_ in asg if '[' not in t]
+        if scal and rng.random() < 0.35:
+            t0, s0 = scal[0]
+            asg.remove((t0, s0))
+            if rng.random() < 0.5:
+                lhs, srcs = '{' + vs(t0) + ', ' + lhs + '}', [s0] + srcs
+            else:
+                lhs, srcs = '{' + lhs + ', ' + vs(t0) + '}', srcs + [s0]
+        r = rhs(srcs)
+        body.append(f'assign {lhs} = ' + (r[0] if len(r) == 1 else '{' + ', '.join(r) + '}') + ';')
     while asg:
         if len(asg) >= 2 and rng.random() < 0.4:
             (t1, s1), (t2, s2) = asg[0], asg[1]
             asg = asg[2:]
             if s1.startswith("1'b") and s2.startswith("1'b") and rng.random() < 0.7:
                 v = int(s1[3]) * 2 + int(s2[3])             # a 2-bit sized constant, MSB first
-                src = rng.choice([f"2'b{s1[3]}{s2[3]}", f"2'd{v}", f"2'h{v}"])
+                big = v + 4 * rng.randrange(1, 4)            # a value that does not fit the size is truncated to its low bits
+                src = rng.choice([f"2'b{s1[3]}{s2[3]}", f"2'd{v}", f"2'h{v}", f"2'd{big}", f"2'h{big:x}", f"2'b1{s1[3]}{s2[3]}"])
             else:
                 src = '{' + vs(s1) + ', ' + vs(s2) + '}'
             body.append('assign {' + vs(t1) + ', ' + vs(t2) + '} = ' + src + ';')
@@ -275,7 +325,8 @@ def vs(bit):
     if bit.startswith("1'b"):
         if CONST_STYLE is not None:
             v = bit[3]
-            return CONST_STYLE.choice([bit, f"1'h{v}", f"1'd{v}", f"1'B{v}", f"1'H{v}"])
+            big = int(v) + 2 * CONST_STYLE.randrange(1, 8)
+            return CONST_STYLE.choice([bit, f"1'h{v}", f"1'd{v}", f"1'B{v}", f"1'H{v}", f"1'd{big}", f"1'h{big:x}"])
         return bit
     m = re.fullmatch(r'([A-Za-z_][A-Za-z0-9_]*)\[(\d+)\]', bit)
     if m:
